@@ -107,12 +107,10 @@ let err_name = function DivZero -> "DivZero" | Index -> "Index" | Fuel -> "Fuel"
 let dump_result (sv : solver) (st : status) =
   let i = sv.sv_info in
   out "status" (status_name st); out "info.status" (status_name i.i_status); out "iter" (zint i.i_iter);
-  (match sv.sv_out with
-   | Some o ->
+  (let o = sv.sv_out in
      out "x" (fmtv o.o_x); out "y" (fmtv o.o_y); out "z" (fmtv o.o_z); out "z_lb" (fmtv o.o_z_lb); out "z_ub" (fmtv o.o_z_ub);
      out "s" (fmtv o.o_s); out "s_lb" (fmtve o.o_s_lb); out "s_ub" (fmtve o.o_s_ub);
-     out "zeta" (fmtv o.o_zeta); out "lambda" (fmtv o.o_lambda); out "nu" (fmtv o.o_nu); out "nu_lb" (fmtv o.o_nu_lb); out "nu_ub" (fmtv o.o_nu_ub)
-   | None -> ());
+     out "zeta" (fmtv o.o_zeta); out "lambda" (fmtv o.o_lambda); out "nu" (fmtv o.o_nu); out "nu_lb" (fmtv o.o_nu_lb); out "nu_ub" (fmtv o.o_nu_ub));
   out "rho" (fmt i.i_rho); out "delta" (fmt i.i_delta); out "mu" (fmt i.i_mu); out "sigma" (fmt i.i_sigma);
   out "primal_step" (fmt i.i_primal_step); out "dual_step" (fmt i.i_dual_step);
   out "primal_inf" (fmt i.i_primal_inf); out "primal_rel_inf" (fmt i.i_primal_rel_inf);
